@@ -160,3 +160,117 @@ pub fn id_bytes(idx: usize) -> (&'static [u8], Option<&'static str>) {
     let id = pool[idx % pool.len()];
     (id.unwrap_or("1234567812345678").as_bytes(), id)
 }
+
+/// Affine curve points whose coordinates sit at representation boundaries: x next to 0, p, n (both sides, so also n <= x < p),
+/// 2^256 - p, powers of two (leading zero bytes / limbs), x whose Montgomery form has all-ones or all-zero limbs, and points
+/// whose y has a leading zero byte. Found by walking x from the anchor until x^3 + ax + b is a square; both roots are listed.
+pub fn edge_points() -> &'static Vec<(String, BigUint, BigUint)> {
+    use std::sync::OnceLock;
+    static V: OnceLock<Vec<(String, BigUint, BigUint)>> = OnceLock::new();
+    V.get_or_init(|| {
+        let pr = r2::params();
+        let p = pr.p;
+        let lift = |x: &BigUint| -> Option<BigUint> {
+            let xf = r2::fp(x);
+            xf.sqr().mul(&xf).add(&pr.curve.a.mul(&xf)).add(&pr.curve.b).sqrt_3mod4().map(|y| y.v)
+        };
+        let mut out: Vec<(String, BigUint, BigUint)> = Vec::new();
+        let mut push = |label: String, x: &BigUint, y: &BigUint| {
+            out.push((format!("{}/y", label), x.clone(), y.clone()));
+            out.push((format!("{}/-y", label), x.clone(), (p - y) % p));
+        };
+        // walk: dir = +1 / -1, take `take` liftable abscissas
+        let mut walk = |label: &str, start: BigUint, up: bool, take: usize| {
+            let mut x = start;
+            let mut found = 0;
+            let mut steps = 0;
+            while found < take && steps < 4000 {
+                if &x < p {
+                    if let Some(y) = lift(&x) {
+                        push(format!("{}{}{}", label, if up { "+" } else { "-" }, steps), &x, &y);
+                        found += 1;
+                    }
+                }
+                if up {
+                    x += 1u32;
+                } else if x.is_zero() {
+                    break;
+                } else {
+                    x -= 1u32;
+                }
+                steps += 1;
+            }
+        };
+        let one = BigUint::one();
+        walk("x=0", BigUint::zero(), true, 3);
+        walk("x=p-1", p - 1u32, false, 4);
+        walk("x=n", pr.n.clone(), true, 3);
+        walk("x=n-1", &pr.n - 1u32, false, 3);
+        walk("x=(n+p)/2", (&pr.n + p) >> 1, true, 2);
+        walk("x=2^256-p", r256() - p, true, 2);
+        walk("x=2^256-p-1", r256() - p - 1u32, false, 2);
+        for e in [64u32, 128, 192, 224, 240, 248, 255] {
+            walk(&format!("x=2^{}", e), &one << e, true, 1);
+            walk(&format!("x=2^{}-1", e), (&one << e) - 1u32, false, 1);
+        }
+        // Montgomery-form limb patterns (least significant limb first); the free limbs are walked until the abscissa lifts
+        let m = u64::MAX;
+        let pats: [(&str, [Option<u64>; 4]); 8] = [
+            ("mont=[M,M,*,*]", [Some(m), Some(m), None, None]),
+            ("mont=[0,0,*,*]", [Some(0), Some(0), None, None]),
+            ("mont=[*,M,M,*]", [None, Some(m), Some(m), None]),
+            ("mont=[M,*,M,*]", [Some(m), None, Some(m), None]),
+            ("mont=[*,*,M,*]", [None, None, Some(m), None]),
+            ("mont=[M,M,M,*]", [Some(m), Some(m), Some(m), None]),
+            ("mont=[*,0,0,0]", [None, Some(0), Some(0), Some(0)]),
+            ("mont=[0,*,0,*]", [Some(0), None, Some(0), None]),
+        ];
+        for (label, pat) in pats.iter() {
+            let mut found = 0;
+            for t in 0..4000u64 {
+                let fill = crate::engine::expand_bytes(0xed6e ^ crate::engine::hash64(label), 32);
+                let mut limbs = [0u64; 4];
+                for i in 0..4 {
+                    limbs[i] = match pat[i] {
+                        Some(v) => v,
+                        None => {
+                            let base = u64::from_le_bytes(fill[i * 8..i * 8 + 8].try_into().unwrap());
+                            // keep the top limb below p's top limb so that the value is a residue
+                            let base = if i == 3 { base >> 1 } else { base };
+                            base.wrapping_add(t)
+                        }
+                    };
+                }
+                let mont = from_limbs(&limbs);
+                if &mont >= p {
+                    continue;
+                }
+                let x = from_mont(&limbs);
+                if let Some(y) = lift(&x) {
+                    push(label.to_string(), &x, &y);
+                    found += 1;
+                    if found == 2 {
+                        break;
+                    }
+                }
+            }
+        }
+        // y with a leading zero byte (one byte: about 1 abscissa in 128 has such a root)
+        let mut x = from_limbs(&[0x1234_5678_9abc_def0, 0x0fed_cba9_8765_4321, 0x1111_2222_3333_4444, 0x5555_6666_7777_8888]);
+        let mut found = 0;
+        for _ in 0..20_000 {
+            if let Some(y) = lift(&x) {
+                let y2 = (p - &y) % p;
+                if y.bits() <= 248 || y2.bits() <= 248 {
+                    push("y-leading-zero-byte".to_string(), &x, &y);
+                    found += 1;
+                    if found == 3 {
+                        break;
+                    }
+                }
+            }
+            x += 1u32;
+        }
+        out
+    })
+}
